@@ -2375,6 +2375,125 @@ theorem history_exposes_spec_total (v : Variant) (hv : v.fixDefrag = true) (hat 
     simp only [KV.store]; exact List.Perm.append_right _ hperm
   exact ((hst.filter _).map key)
 
+/-! ### windowed caches, append-only use: nothing inside the window is missing -/
+
+/-- the eviction of a pass is invisible to every query that is not below the batch's lowest position of
+    its own sequence -/
+theorem specSlide_invisible_of_le (s : Spec) (w : Int) (b : List Tok) (q : Nat) (p : Int)
+    (hq : ∀ low, lowest b q = some low → low ≤ p) :
+    (visible (some w) (specSlide s w b) q p).map key = (visible (some w) s q p).map key := by
+  unfold specSlide
+  generalize batchSeqs b = seqs
+  induction seqs generalizing s with
+  | nil => rfl
+  | cons seq rest ih =>
+    simp only [List.foldl_cons]
+    cases hl : lowest b seq with
+    | none => exact ih s
+    | some low =>
+      simp only
+      rw [ih (evict s seq (low - w))]
+      apply evict_invisible
+      intro hqs
+      subst hqs
+      have := hq low hl
+      omega
+
+/-- a forward-only history: batches with their data and the cache's answer (accepted or rejected) -/
+abbrev Pass := List Tok × List Nat × Bool
+
+/-- the specification's state: every pass evicts, an accepted one stores its batch -/
+def runS (w : Int) : Spec → List Pass → Spec
+  | s, [] => s
+  | s, (b, ids, acc) :: rest =>
+    runS w (if acc then KV.store (specSlide s w b) (b.zip ids) else specSlide s w b) rest
+
+/-- the ideal state: nothing is ever evicted -/
+def runI : Spec → List Pass → Spec
+  | s, [] => s
+  | s, (b, ids, acc) :: rest => runI (if acc then KV.store s (b.zip ids) else s) rest
+
+/-- the query is not below the lowest position any of the passes had for its sequence -/
+def NotBelow (ps : List Pass) (q : Nat) (p : Int) : Prop :=
+  ∀ pass ∈ ps, ∀ low, lowest pass.1 q = some low → low ≤ p
+
+theorem visible_store (W : Option Int) (s : Spec) (batch : List (Tok × Nat)) (q : Nat) (p : Int) :
+    visible W (KV.store s batch) q p = visible W s q p ++ visible W (KV.store [] batch) q p := by
+  simp [visible, KV.store, List.filter_append]
+
+/-- **Append-only use of a sliding-window cache exposes the ideal windowed history**: if two states agree on
+    everything a query can see, they still do after any sequence of passes whose lowest positions (per
+    sequence) are not above the query — whatever the passes evicted was already outside the query's window. -/
+theorem runS_visible_eq_runI (w : Int) (ps : List Pass) (s i : Spec) (q : Nat) (p : Int)
+    (h0 : (visible (some w) s q p).map key = (visible (some w) i q p).map key)
+    (hnb : NotBelow ps q p) :
+    (visible (some w) (runS w s ps) q p).map key = (visible (some w) (runI i ps) q p).map key := by
+  induction ps generalizing s i with
+  | nil => exact h0
+  | cons pass rest ih =>
+    obtain ⟨b, ids, acc⟩ := pass
+    have hb : ∀ low, lowest b q = some low → low ≤ p := fun low hl => hnb (b, ids, acc) (by simp) low hl
+    have hsl := specSlide_invisible_of_le s w b q p hb
+    simp only [runS, runI]
+    apply ih
+    · cases acc with
+      | true =>
+        simp only [if_true]
+        rw [visible_store, visible_store (some w) i, List.map_append, List.map_append, hsl, h0]
+      | false =>
+        simp only [Bool.false_eq_true, if_false]
+        rw [hsl, h0]
+    · exact fun x hx => hnb x (by simp [hx])
+
+def fwdOps (bs : List (List Tok × List Nat)) : List HOp := bs.map (fun x => .fwd x.1 x.2)
+
+/-- the passes of a forward-only history with the cache's answers -/
+def annotate : Cache → List (List Tok × List Nat) → List Pass
+  | _, [] => []
+  | c, (b, ids) :: rest => (b, ids, accepted c (.fwd b ids)) :: annotate (stepH c (.fwd b ids)) rest
+
+theorem runT_fwd (w : Int) (c : Cache) (s : Spec) (bs : List (List Tok × List Nat)) :
+    runT (some w) c s (fwdOps bs) = runS w s (annotate c bs) := by
+  induction bs generalizing c s with
+  | nil => rfl
+  | cons x rest ih =>
+    obtain ⟨b, ids⟩ := x
+    simp only [fwdOps, List.map_cons, runT, annotate, runS]
+    have := ih (stepH c (.fwd b ids)) (specStepT (some w) s (.fwd b ids) (accepted c (.fwd b ids)))
+    simp only [fwdOps] at this
+    rw [this]
+    rfl
+
+/-- **"Nothing missing" for a sliding-window cache under append-only use** (repaired tree).  After any
+    forward-only history (batches accepted or rejected, any placement, eviction, defragmentation), every token
+    of the next accepted batch whose position is not below the lowest position an earlier pass had for its
+    sequence is shown exactly the IDEAL windowed history: every entry ever stored for its sequence at a position
+    ≤ its own and inside the window — the evictions the cache performed are invisible.  (What breaks this is
+    exactly F15: a middle `Remove` shifts later positions below an earlier eviction threshold.) -/
+theorem window_exact_append_only (v : Variant) (hv : v.fixDefrag = true) (hat : v.atomicRemove = true) (w : Int)
+    (maxSeq capacity maxBatch cachePad batchPad : Nat) (hs : Bool) (bs : List (List Tok × List Nat))
+    (b : List Tok) (ids : List Nat)
+    (hsz : (Causal.init v (some w) maxSeq capacity maxBatch cachePad batchPad hs).cells.length ≤ maxInt)
+    (hids : ids.length = b.length) (hwf : ∀ x ∈ bs, x.2.length = x.1.length) :
+    let c0 := Causal.init v (some w) maxSeq capacity maxBatch cachePad batchPad hs
+    let c := (fwdOps bs).foldl stepH c0
+    (startForward c b).2 = .ok →
+    ∀ t ∈ b, NotBelow (annotate c0 bs) t.seq t.pos →
+      ((exposedEntries (put (startForward c b).1 ids) t).map key).Perm
+        ((visible (some w) (KV.store (runI [] (annotate c0 bs)) (b.zip ids)) t.seq t.pos).map key) := by
+  intro c0 c hok t ht hnb
+  have hwf' : ∀ op ∈ fwdOps bs, WellFormed op := by
+    intro op hop
+    simp only [fwdOps, List.mem_map] at hop
+    obtain ⟨x, hx, rfl⟩ := hop
+    exact hwf x hx
+  have h1 := history_exposes_spec_total v hv hat (some w) maxSeq capacity maxBatch cachePad batchPad hs (fwdOps bs) b ids
+    hsz hids hwf' hok t ht
+  refine h1.trans ?_
+  have hrun : runT (some w) c0 [] (fwdOps bs) = runS w [] (annotate c0 bs) := runT_fwd w c0 [] bs
+  rw [hrun, visible_store, visible_store (some w) (runI [] (annotate c0 bs)), List.map_append, List.map_append,
+    runS_visible_eq_runI w (annotate c0 bs) [] [] t.seq t.pos rfl hnb]
+
 /-! ### `CanResume` (repaired, F15b) is sound: an approved position has its whole window present -/
 
 theorem nodup_range_length (n : Nat) (lo : Int) (L : List Int) (hnd : L.Nodup)
@@ -2693,6 +2812,15 @@ example :
     abs (Causal.remove (f28 {}) 0 1 2).1 ≠ abs (f28 {}) ∧
     (abs (Causal.remove (Causal.remove (f28 {}) 0 1 2).1 0 0 maxInt32).1).map (fun e => (e.seqs, e.pos, e.id))
       = [([1], 0, 10), ([1], 1, 11), ([1], 2, 12), ([1], 3, 13)] := by decide
+
+/-- non-vacuity (audited): window 2, positions 0..4 stored one by one — positions 0 and 1 have been evicted —
+    then the token at position 5 is not below any earlier pass and the ideal history still holds all 5 entries -/
+theorem window_exact_nonvacuous :
+    let c0 := Causal.init { fixDefrag := true, atomicRemove := true } (some 2) 1 16 4 1 1 true
+    let bs : List (List Tok × List Nat) := [([⟨0, 0⟩], [1]), ([⟨0, 1⟩], [2]), ([⟨0, 2⟩], [3]), ([⟨0, 3⟩], [4]), ([⟨0, 4⟩], [5])]
+    (startForward ((fwdOps bs).foldl stepH c0) [⟨0, 5⟩]).2 = .ok ∧
+    (annotate c0 bs).all (fun pass => decide ((lowest pass.1 0).getD 0 ≤ 5)) = true ∧
+    (runI [] (annotate c0 bs)).length = 5 ∧ (abs ((fwdOps bs).foldl stepH c0)).length = 3 := by decide
 
 /-- the cache's answers along a history -/
 def acceptTrace : Cache → List HOp → List Bool
